@@ -29,6 +29,10 @@ type Env struct {
 	old    *Env
 	result []Binding
 	fr     *Frame
+	qv     map[string]bool // names bound by quantifiers / explicit anchors (shadow everything)
+	// dyn: for interface-typed parameters of a callee contract evaluated at a call site, the
+	// static type of the value the actual argument was made from (MakeInterface operand)
+	dyn map[string]types.Type
 }
 
 func (e *Env) with(name string, b Binding) *Env {
@@ -38,6 +42,11 @@ func (e *Env) with(name string, b Binding) *Env {
 		n.vars[k] = v
 	}
 	n.vars[name] = b
+	n.qv = map[string]bool{}
+	for k := range e.qv {
+		n.qv[k] = true
+	}
+	n.qv[name] = true
 	return &n
 }
 
@@ -168,13 +177,17 @@ func (e *Env) nilOf(b Binding) Term {
 
 func (e *Env) ident(name string) Binding {
 	c := e.c
-	if b, ok := e.vars[name]; ok {
-		return b
+	if e.qv[name] {
+		return e.vars[name]
 	}
+	// source-level locals (current values) shadow the entry values of parameters
 	if e.local != nil {
 		if b, ok := e.local(name); ok {
 			return b
 		}
+	}
+	if b, ok := e.vars[name]; ok {
+		return b
 	}
 	if name == "result" {
 		if len(e.result) == 0 {
@@ -528,11 +541,28 @@ func (c *Ctx) resolveType(name string, pkg *types.Package) (types.Type, string) 
 		if p := c.V.P.ByPath[path]; p != nil {
 			scope = p.Types.Scope()
 		}
-	} else if i := strings.Index(name, "."); i >= 0 && pkg != nil {
-		for _, imp := range pkg.Imports() {
-			if imp.Name() == name[:i] {
-				scope = imp.Scope()
+	} else if i := strings.LastIndex(name, "."); i >= 0 {
+		if pkg != nil {
+			for _, imp := range pkg.Imports() {
+				if imp.Name() == name[:i] {
+					scope = imp.Scope()
+					tn = name[i+1:]
+				}
+			}
+		}
+		if scope == nil {
+			// by import path, or by unique package name among the loaded packages
+			if p := c.V.P.ByPath[name[:i]]; p != nil {
+				scope = p.Types.Scope()
 				tn = name[i+1:]
+			} else {
+				for _, p := range c.V.P.ByPath {
+					if p.Types != nil && p.Types.Name() == name[:i] {
+						scope = p.Types.Scope()
+						tn = name[i+1:]
+						break
+					}
+				}
 			}
 		}
 	} else if pkg != nil {
@@ -734,6 +764,49 @@ func (e *Env) call(x ECall) Binding {
 			evalFail("iface: unknown type %s", tn)
 		}
 		return Binding{app(SIface, "mkiface", tInt(int64(c.V.typeTag(ty))), c.box(v.T)), nil}
+	case "tagof":
+		tn := exprString(x.Args[0])
+		if d, ok := x.Args[0].(EDeref); ok {
+			tn = "*" + exprString(d.X)
+		}
+		ty, _ := c.resolveType(tn, e.pkg)
+		if ty == nil {
+			evalFail("tagof: unknown type %s", tn)
+		}
+		return Binding{tInt(int64(c.V.typeTag(ty))), nil}
+	case "deref":
+		// deref(x): the value the pointer held in interface x points to (dynamic type known
+		// from the call site)
+		v := arg(0)
+		pt := e.dynPointer(x.Args[0])
+		p := c.unbox(app(SInt, "iref", v.T), SPtr)
+		return Binding{c.load(e.st, p, pt.Elem()), pt.Elem()}
+	case "boxed":
+		v := arg(0)
+		return Binding{c.box(v.T), nil}
+	case "unboxas":
+		v := arg(0)
+		tn := exprString(x.Args[1])
+		if d, ok := x.Args[1].(EDeref); ok {
+			tn = "*" + exprString(d.X)
+		}
+		ty, srt := c.resolveType(tn, e.pkg)
+		return Binding{c.unbox(v.T, srt), ty}
+	case "zero":
+		tn := exprString(x.Args[0])
+		ty, _ := c.resolveType(tn, e.pkg)
+		if ty == nil {
+			evalFail("zero: unknown type %s", tn)
+		}
+		return Binding{c.zero(ty), ty}
+	case "implements":
+		v := arg(0)
+		tn := exprString(x.Args[1])
+		ty, _ := c.resolveType(tn, e.pkg)
+		if ty == nil || !types.IsInterface(ty) {
+			evalFail("implements: %s is not an interface type", tn)
+		}
+		return Binding{c.implements(v.T, ty), types.Typ[types.Bool]}
 	case "typetag":
 		v := arg(0)
 		return Binding{app(SInt, "itag", v.T), nil}
@@ -805,4 +878,24 @@ func (e *Env) muAddr(x Expr) Term {
 		evalFail("held(): field %s", s.Name)
 	}
 	return e.c.fieldPtr(v.T, pt.Elem(), path[0])
+}
+
+// dynPointer returns the pointer type held by an interface-typed parameter at this call site.
+func (e *Env) dynPointer(x Expr) *types.Pointer {
+	id, ok := x.(EIdent)
+	if !ok {
+		evalFail("dynamic type of %s is only known for parameters", exprString(x))
+	}
+	t := e.dyn[id.Name]
+	if t == nil && e.old != nil {
+		t = e.old.dyn[id.Name]
+	}
+	if t == nil {
+		evalFail("dynamic type of %s not known at this call site (argument is not a conversion to interface)", id.Name)
+	}
+	pt, ok := t.Underlying().(*types.Pointer)
+	if !ok {
+		evalFail("dynamic type %s of %s is not a pointer", t, id.Name)
+	}
+	return pt
 }
